@@ -131,6 +131,17 @@ theorem write_parse_roundtrip_second {N} (ops : NumOps N) (fin : N → Prop) (rt
   rw [mapNum_fixed fin rt _ hfix] at p2
   exact ⟨t1, mapNum rt v, t2, e1, p1, e2, p2⟩
 
+/-- **save_locale_independent.**  "Regardless of the stream's locale": whatever `numpunct`
+(decimal point, thousands separator, grouping) the output stream carries, `value::write`
+produces the text of the classic locale — because the source imbues `"C"` unconditionally
+around `write_value` (`Gen.writeImbue`, `Gen.writeImbueUnconditional`, regenerated every run).
+All round-trip theorems therefore hold for `saveTo ops loc` with any `loc`. -/
+theorem save_locale_independent {N} (ops : NumOps N) (loc : StreamLocale) (readable : Bool) (v : Value N) :
+    saveTo ops loc readable v = save ops readable v := by
+  have : effectiveLocale loc = StreamLocale.classic := by
+    simp [effectiveLocale, Gen.writeImbueUnconditional, Gen.writeImbue]
+  simp [saveTo, this]
+
 /-! ### the full statement is false: three counterexamples (known findings) -/
 
 theorem parse_of_err {N} (ops : NumOps N) (inp r : Bytes) (h : next ops inp = (.err, r)) : parse ops inp = none := by
